@@ -1,4 +1,203 @@
-import BipVerif.Model.Memo
+/-
+C15 — memoisation (`functools.lru_cache`) and lazy singletons are transparent.
+
+* sequential: a memoised method on an object whose state is only mutated in ways the body does not
+  observe is indistinguishable from the method that always recomputes; a single observable mutation
+  is enough to tell them apart (the shape of the stale-cache defects);
+* concurrent: under every interleaving of the atomic `lookup / compute / store` steps every finished
+  call returns the reference value of the argument it was called with;
+* table: every `lru_cache` method of the package (generated list) reads no mutable attribute, up to
+  two justified entries.
+-/
+import BipVerif.Lemmas.Memo
+import BipVerif.Gen.Caches
+
 namespace BipVerif.Props.C15
-theorem placeholder : True := trivial
+open BipVerif.Model.Memo
+
+variable {St Arg Out : Type} [DecidableEq Arg]
+
+/-! ### 1–4: the sequential machine -/
+
+/-- **Transparency.**  Starting from the empty cache, on a history all of whose mutations leave the
+method's result unchanged, the memoising machine returns exactly what the always-computing
+reference machine returns, call by call. -/
+theorem memo_transparent (m : Method St Arg Out) (st : St) (h : List (Op St Arg)) :
+    HistoryIndependent m h → runMemo m ⟨st, []⟩ h = runPure m st h :=
+  runMemo_eq_runPure m h ⟨st, []⟩ (cacheOk_empty m st)
+
+/-- transparency from any cache that is consistent with the current state -/
+theorem memo_transparent_from (m : Method St Arg Out) (s : MState St Arg Out)
+    (h : List (Op St Arg)) (hs : ∀ a o, (a, o) ∈ s.cache → o = m.pureOut s.st a) :
+    HistoryIndependent m h → runMemo m s h = runPure m s.st h :=
+  runMemo_eq_runPure m h s hs
+
+/-- **Stale-cache witness.**  If a mutation changes the result at some argument, then
+"call, mutate, call again" tells the memoising machine from the reference machine. -/
+theorem memo_stale_witness (m : Method St Arg Out) (st : St) (f : St → St) (a : Arg)
+    (hne : m.pureOut (f st) a ≠ m.pureOut st a) :
+    runMemo m ⟨st, []⟩ [.call a, .mutate f, .call a]
+      ≠ runPure m st [.call a, .mutate f, .call a] := by
+  rw [runMemo_stale, runPure_stale]
+  intro h
+  injection h with _ h
+  injection h with _ h
+  injection h with h _
+  injection h with h
+  exact hne h.symm
+
+/-- what the memoising machine answers on the witness history: the *old* value, twice -/
+theorem memo_stale_value (m : Method St Arg Out) (st : St) (f : St → St) (a : Arg) :
+    runMemo m ⟨st, []⟩ [.call a, .mutate f, .call a]
+      = [some (m.pureOut st a), none, some (m.pureOut st a)] :=
+  runMemo_stale m st f a
+
+/-- **Characterisation.**  For a set `F` of available mutations: every mutation of `F` is invisible
+to the body iff the memoising machine is transparent on every history built from `F`
+(from every initial state). -/
+theorem memo_transparent_iff (m : Method St Arg Out) (F : (St → St) → Prop) :
+    (∀ f, F f → Independent m f) ↔
+      ∀ (st : St) (h : List (Op St Arg)), BuiltFrom F h → runMemo m ⟨st, []⟩ h = runPure m st h := by
+  constructor
+  · intro hF st h hb
+    exact memo_transparent m st h (historyIndependent_of_builtFrom m F hF h hb)
+  · intro hT f hf st a
+    have hb : BuiltFrom F ([.call a, .mutate f, .call a] : List (Op St Arg)) := by
+      intro g hg
+      simp only [List.mem_cons, List.not_mem_nil, or_false, reduceCtorEq, false_or] at hg
+      cases hg; exact hf
+    have h := hT st _ hb
+    rw [runMemo_stale, runPure_stale] at h
+    injection h with _ h
+    injection h with _ h
+    injection h with h _
+    injection h with h
+    exact h.symm
+
+/-- **Idempotence.**  A second call with the same argument returns the same answer and leaves the
+machine state (in particular the cache) exactly as the first call left it — whatever the cache was. -/
+theorem memo_call_idempotent (m : Method St Arg Out) (s : MState St Arg Out) (a : Arg) :
+    stepMemo m (stepMemo m s (.call a)).1 (.call a)
+      = ((stepMemo m s (.call a)).1, (stepMemo m s (.call a)).2) := by
+  cases hl : s.cache.lookup a with
+  | some o =>
+    rw [stepMemo_call_hit m s hl]
+    exact stepMemo_call_hit m s hl
+  | none =>
+    rw [stepMemo_call_miss m s hl]
+    exact stepMemo_call_hit m _ (lookup_cons_self a _ s.cache)
+
+/-- the same as a two-call run: equal answers, and the cache does not grow the second time -/
+theorem memo_call_twice (m : Method St Arg Out) (s : MState St Arg Out) (a : Arg) :
+    ∃ o, runMemo m s [.call a, .call a] = [some o, some o] ∧
+      (stepMemo m (stepMemo m s (.call a)).1 (.call a)).1.cache.length
+        = (stepMemo m s (.call a)).1.cache.length := by
+  have h2 := memo_call_idempotent m s a
+  cases hl : s.cache.lookup a with
+  | some o =>
+    refine ⟨o, ?_, by rw [h2]⟩
+    show [(stepMemo m s (.call a)).2, (stepMemo m (stepMemo m s (.call a)).1 (.call a)).2] = _
+    rw [h2, stepMemo_call_hit m s hl]
+  | none =>
+    refine ⟨m.pureOut s.st a, ?_, by rw [h2]⟩
+    show [(stepMemo m s (.call a)).2, (stepMemo m (stepMemo m s (.call a)).1 (.call a)).2] = _
+    rw [h2, stepMemo_call_miss m s hl]
+
+/-! ### 5–6: interleavings -/
+
+/-- one atomic step of any thread preserves the invariant -/
+theorem cstep_inv (m : Method St Arg Out) (st : St) (s : CState Arg Out) (x : Atom Arg) :
+    CInv m st s → CInv m st (cstep m st s x) :=
+  cstep_preserves m st s x
+
+/-- **Soundness under every interleaving.**  From the empty cache with all threads idle, after ANY
+schedule of atomic steps: every cache entry, every computed-but-not-yet-stored value and every value
+returned to a finished call is a value of the reference function (this covers two threads that both
+miss, both compute and both store). -/
+theorem interleaving_sound (m : Method St Arg Out) (st : St) (sched : List (Atom Arg)) :
+    CInv m st (crun m st (cinit : CState Arg Out) sched) :=
+  crun_preserves m st sched cinit (cinv_cinit m st)
+
+/-- **The finished call returns the value for *its* argument.**  If after the schedule thread `t` is
+`done o`, then `t` did perform a lookup, and `o` is the reference value at the argument `a` of the
+last lookup `t` performed (the call that has just finished), whatever the other threads did. -/
+theorem done_value (m : Method St Arg Out) (st : St) (sched : List (Atom Arg)) (t : Nat) (o : Out)
+    (h : (crun m st (cinit : CState Arg Out) sched).phase t = .done o) :
+    ∃ a, lastLookup t sched = some a ∧ o = m.pureOut st a := by
+  have := (crun_sinv m st sched).2 t
+  rw [h] at this
+  exact this
+
+
+/-- the same without the ghost function: if the schedule is `pre ++ lookup t a :: post`, thread `t`
+performs no further lookup in `post`, and `t` ends up `done o`, then `o` is the reference value at
+`a` — whatever `pre`, `post` and the other threads are -/
+theorem done_value_of_split (m : Method St Arg Out) (st : St) (t : Nat) (a : Arg)
+    (pre post : List (Atom Arg)) (hpost : ∀ b, Atom.lookup t b ∉ post) (o : Out)
+    (h : (crun m st (cinit : CState Arg Out) (pre ++ Atom.lookup t a :: post)).phase t = .done o) :
+    o = m.pureOut st a := by
+  obtain ⟨a', ha', ho⟩ := done_value m st _ t o h
+  rw [lastLookup_of_split t a pre post hpost] at ha'
+  cases ha'
+  exact ho
+
+/-- non-vacuity: the model does allow two threads to miss, compute and store the same argument;
+the cache then holds the entry twice and both callers hold the reference value -/
+theorem double_miss_example (m : Method St Arg Out) (st : St) (a : Arg) :
+    let s := crun m st (cinit : CState Arg Out)
+      [.lookup 0 a, .lookup 1 a, .compute 0, .compute 1, .store 0, .store 1]
+    s.cache = [(a, m.pureOut st a), (a, m.pureOut st a)] ∧
+      s.phase 0 = .done (m.pureOut st a) ∧ s.phase 1 = .done (m.pureOut st a) := by
+  simp [crun, cstep, cinit, List.lookup]
+
+/-- a pending (missed / computed) call also still talks about its own argument -/
+theorem computed_value (m : Method St Arg Out) (st : St) (sched : List (Atom Arg)) (t : Nat)
+    (a : Arg) (o : Out)
+    (h : (crun m st (cinit : CState Arg Out) sched).phase t = .computed a o) :
+    lastLookup t sched = some a ∧ o = m.pureOut st a := by
+  have := (crun_sinv m st sched).2 t
+  rw [h] at this
+  exact this
+
+/-- the stored cache is always a fragment of the graph of the reference function -/
+theorem cache_sound (m : Method St Arg Out) (st : St) (sched : List (Atom Arg)) (a : Arg) (o : Out)
+    (h : (a, o) ∈ (crun m st (cinit : CState Arg Out) sched).cache) : o = m.pureOut st a :=
+  (interleaving_sound m st sched).1 a o h
+
+/-- **Lazy singleton.**  A lazily initialised singleton is the case `Arg := Unit`: whatever the
+interleaving, every caller that has finished got the one value `pureOut st ()`. -/
+theorem singleton_value {St Out : Type} (m : Method St Unit Out) (st : St)
+    (sched : List (Atom Unit)) (t : Nat) (o : Out)
+    (h : (crun m st (cinit : CState Unit Out) sched).phase t = .done o) : o = m.pureOut st () := by
+  obtain ⟨a, _, ho⟩ := done_value m st sched t o h
+  exact ho
+
+/-- any two finished callers — in the same or in different (e.g. earlier / later) schedules — hold the
+same value -/
+theorem singleton_idempotent {St Out : Type} (m : Method St Unit Out) (st : St)
+    (sched sched' : List (Atom Unit)) (t u : Nat) (o o' : Out)
+    (h : (crun m st (cinit : CState Unit Out) sched).phase t = .done o)
+    (h' : (crun m st (cinit : CState Unit Out) sched').phase u = .done o') : o = o' := by
+  rw [singleton_value m st sched t o h, singleton_value m st sched' u o' h']
+
+/-! ### 7: the generated table of `lru_cache` methods -/
+
+/-- Entries of `Gen.cachedMethods` whose reachable-mutable-attribute list is not empty but which are
+nevertheless pure.
+
+The static analysis resolves the annotated type `BipCoinConf` of `m_coin_conf` to all its
+subclasses, two of which (Bitcoin Cash, Litecoin) have address toggles; the Shelley encoders called
+here only read `net_tag`, which no toggle changes. -/
+def justified : List (String × String) :=
+  [("CardanoShelleyPublicKeys", "ToAddress"), ("CardanoShelleyPublicKeys", "ToStakingAddress")]
+
+/-- every memoised method of the package reads no attribute that is ever assigned outside
+`__init__`, or is one of the two justified entries -/
+theorem table_all_pure : ∀ m ∈ Gen.cachedMethods, m.2.2 = [] ∨ (m.1, m.2.1) ∈ justified := by
+  decide
+
+/-- the generator did find the memoised methods (an empty table would make `table_all_pure` vacuous) -/
+theorem cached_methods_nonempty : Gen.cachedMethods ≠ [] := by
+  decide
+
 end BipVerif.Props.C15
